@@ -75,7 +75,7 @@ impl ColumnPredicate {
                 // (chunk might have both matching and non-matching values)
                 true
             }
-            ColumnPredicate::Lt(col, val) | ColumnPredicate::LtEq(col, val) => {
+            ColumnPredicate::Lt(col, val) => {
                 if let Some(stats) = column_stats.get(col) {
                     // If min >= val, no rows satisfy col < val
                     // Use conservative check: include if min might be < val
@@ -84,11 +84,29 @@ impl ColumnPredicate {
                     true
                 }
             }
-            ColumnPredicate::Gt(col, val) | ColumnPredicate::GtEq(col, val) => {
+            ColumnPredicate::LtEq(col, val) => {
+                if let Some(stats) = column_stats.get(col) {
+                    // If min > val, no rows satisfy col <= val
+                    // (a chunk whose min equals val still contains a matching row)
+                    !Self::value_gt(&stats.min, val)
+                } else {
+                    true
+                }
+            }
+            ColumnPredicate::Gt(col, val) => {
                 if let Some(stats) = column_stats.get(col) {
                     // If max <= val, no rows satisfy col > val
                     // Use conservative check: include if max might be > val
                     !Self::value_lte(&stats.max, val)
+                } else {
+                    true
+                }
+            }
+            ColumnPredicate::GtEq(col, val) => {
+                if let Some(stats) = column_stats.get(col) {
+                    // If max < val, no rows satisfy col >= val
+                    // (a chunk whose max equals val still contains a matching row)
+                    !Self::value_lt(&stats.max, val)
                 } else {
                     true
                 }
